@@ -174,7 +174,7 @@ def call_with_history(case, fn, args, seq_dims):
             for a, o in zip(args, orig):
                 a.copy_(o)
         out = fn(*args)
-        if case.get("entry") in ("script", "trace", "script_fn"):
+        if case.get("entry") in JIT:
             for _ in range(2):
                 again = fn(*args)
                 if again.shape != out.shape or not torch.equal(again, out):
@@ -190,7 +190,9 @@ def run_impl(case, norm=None):
         junk = 0 if case["eos"] is None else case["eos"]
         ref = _tensor_l(case["ref"], R, bf, lay[0], junk)
         hyp = ref if case.get("alias") else _tensor_l(case["hyp"], H, bf, lay[1], junk)
-        fn = _fn(case, norm)
+        with warnings.catch_warnings():
+            warnings.simplefilter("ignore")
+            fn = _fn(case, norm)
         sd = 1 if bf else 0
         out, flags = call_with_history(case, fn, [ref, hyp], [sd, sd])
         res = {"shape": list(out.shape), "dtype": str(out.dtype), "val": _canon(out)}
@@ -573,7 +575,13 @@ def gen_zero_width(chk, n):
 # ids that only differ beyond float32 / float64 precision, the documented padding value, int32 / int64 extremes
 EXOTIC_IDS = [2 ** 24, 2 ** 24 + 1, 2 ** 53, 2 ** 53 + 1, -2 ** 62, 2 ** 62, -2 ** 62 - 1, -100, -1, 0, 2 ** 31 - 1,
               2 ** 31, -2 ** 31]
-ENTRIES = [None, None, "script", "script", "script_fn", "trace", "sparse"]
+JIT = ("script", "trace", "script_fn")
+
+
+def _rand_entry(rng):
+    """scripting / tracing a module costs 25 / 60 ms: a few dozen per quick run"""
+    u = rng.random()
+    return "script" if u < 0.12 else "trace" if u < 0.16 else "script_fn" if u < 0.32 else "sparse" if u < 0.46 else None
 
 
 def _rand_nonuniform(rng):
@@ -658,8 +666,9 @@ def gen_sparse(chk, n):
     return cases
 
 
-def _decorate(rng, case, p_exotic=0.3):
+def _decorate(rng, case, p_exotic=0.3, defaults=None):
     """memory layout, entry point, call history, argument aliasing, unusual ids - on top of an ordinary case"""
+    defaults = defaults or DEFAULTS
     N, R, H = _dims(case)
     if rng.random() < p_exotic:  # re-label all tokens (and eos) injectively with unusual ids
         toks = sorted({t for s_ in case["ref"] + case["hyp"] for t in s_} | ({case["eos"]} if case["eos"] is not None else set()))
@@ -679,9 +688,9 @@ def _decorate(rng, case, p_exotic=0.3):
         case["layout"] = ["expand", rng.choice(LAYOUTS[:4])]
     if "layout" not in case:
         case["layout"] = [rng.choice(LAYOUTS[:4]), rng.choice(LAYOUTS[:4])]
-    case["entry"] = rng.choice(ENTRIES)
+    case["entry"] = _rand_entry(rng)
     if case["entry"] == "sparse":
-        case["keep"] = [k for k in DEFAULTS[case["api"]] if rng.random() < 0.3]
+        case["keep"] = [k for k in defaults[case["api"]] if rng.random() < 0.3]
     case["history"] = rng.random() < 0.4 and "expand" not in case["layout"]
     return case
 
@@ -953,6 +962,7 @@ def run(chk, cases=None):
         if c["api"] == "prefix" and c["eos"] is not None and c["include_eos"] and any(
                 c["eos"] in h[:-1] for h in c["hyp"]):
             chk.count("prefix_include_eos_with_eos_before_last_row")
+    chk.extra["t_impl_s"] = round(__import__("time").time() - chk.t0, 2)
     # the Coq evaluation runs beside the metamorphic phase; terms that take seconds each get their own shards
     slow = [i for i, c in enumerate(cases) if c.get("long") or c.get("slow")]
     fast = [i for i in range(len(cases)) if i not in set(slow)]
@@ -967,7 +977,7 @@ def run(chk, cases=None):
     OLD = ("random", "corpus")
     NEW = ("eos-mix", "sparse-defaults", "entry-layout", "numeric", "long-ref", "long-hyp")
     for i, c in enumerate(cases):
-        if c.get("long") or c.get("slow") or not _exact_scale(c):
+        if c.get("long") or c.get("slow") or not _exact_scale(c) or (c.get("entry") in JIT and not replaying):
             continue
         if streams[i] in NEW and not replaying and i % (8 if chk.tier != "thorough" else 24) != 0:
             continue
@@ -978,12 +988,15 @@ def run(chk, cases=None):
     chk.extra["metamorphic_cases"] = meta_n
     chk.extra["metamorphic_failures"] = len(meta_fail)
 
+    import time as _t
+    _t0 = _t.time()
     res = [True] * len(cases)
     for i, ok in zip(fast, fut_fast.result()):
         res[i] = ok
     for i, ok in zip(slow, fut_slow.result()):
         res[i] = ok
     pool.shutdown()
+    chk.extra["wait_coq_s"] = round(_t.time() - _t0, 2)
     bad = [i for i, ok in enumerate(res) if not ok]
     chk.extra["model_disagreements"] = len(bad)
 
